@@ -208,6 +208,12 @@ func runC44(c *Ctx) {
 		defer cancel()
 		s.Spawn("client", func() {
 			conn := lsp.VerifServe(ctx, wire)
+			// jsonrpc2 starts its reader goroutine inside un-instrumented code:
+			// until that goroutine reaches its first instrumented operation (the
+			// wait for input in lspWire.Read) it runs beside this one. Park here,
+			// so that the scheduler's barrier lets it get there first; otherwise
+			// whether its first Read finds the first chunk is a real race.
+			simrt.Yield("c44:server-started")
 			var pending []byte
 			// pump parses whatever the server has written so far.
 			pump := func() {
